@@ -17,7 +17,7 @@ CFG = {
     "technique": "Coq proof (induction over line lists / mesh lists, simulation between reader state and direct "
                  "semantics) + vm_compute correspondence check",
     "design_ref": "DESIGN.md §4 C05, §5 entries 5, 6; notes/C05.md",
-    "n_quick": 256, "n_thorough": 6000,
+    "n_quick": 256, "n_thorough": 4000,
     "rule": "stream 1: lists of 1-5 named meshes (0-5 triangles each, welded/unwelded, independent presence of "
             "normals and UVs per mesh, 0-4 material ranges incl. empty ranges, repeated and nil materials, optional "
             "mtllib, 1/14 ill-formed) through obj.WriteMeshes -> tokenizer -> obj.ReadMesh; stream 2: OBJ text from "
